@@ -2,12 +2,15 @@ package pipeprops
 
 import "verif/sim/driver"
 
-// elements of input i are distinct and attributable: 1000*i+index (the very
+// stride separates the elements of different inputs.
+const stride = 100000
+
+// elements of input i are distinct and attributable: stride*i+index (the very
 // first element is 0: the zero value must travel like any other).
 func elems(input, n int) []int {
 	out := make([]int, n)
 	for k := range out {
-		out[k] = 1000*input + k
+		out[k] = stride*input + k
 	}
 	return out
 }
